@@ -172,6 +172,15 @@ Post(o) ==
   /\ main' = [pc |-> "done"]
   /\ UNCHANGED <<cfg, queue, nxt, wk, wg, stop, slots>>
 
+\* The caller kept the lists post was handed and looks at them again after the same node object has run once more
+\* (the next pass of a looping flow): they belong to the run that produced them and still read the same.
+LookAgain ==
+  /\ main.pc = "done" /\ "after" \in DOMAIN cfg /\ cfg.after
+  /\ \E k \in 1..Len(h) : h[k].ev = "bpost"
+  /\ ~\E k \in 1..Len(h) : h[k].ev = "bpostagain"
+  /\ h' = Append(h, [ev |-> "bpostagain", items |-> MkSeq(cfg.n, ItemTok), slots |-> MkSeq(cfg.n, LAMBDA i : EvSlot(slots[i]))])
+  /\ UNCHANGED <<cfg, main, queue, nxt, wk, wg, stop, ctx, slots, ret>>
+
 (* ---------------------------------------------------------------------- *)
 (* the item pipeline: runExecWithRetries (batch.go:304-344)                *)
 (* ---------------------------------------------------------------------- *)
@@ -209,8 +218,9 @@ PExecOut(w, o) ==
   /\ W(w).st = "inexec"
   /\ h' = Append(h, EvExecOut(w, W(w).item, W(w).att + 1, o))
   /\ ctx' = IF o.cancel THEN "done" ELSE ctx
-  /\ IF o.out = "ok"
-       THEN SetW(w, [W(w) EXCEPT !.st = "record", !.att = @ + 1, !.res = OkRes(ValTok(W(w).item, W(w).att + 1))])
+  /\ IF o.out \in {"ok", "nil"}       \* "nil": the attempt succeeds with a nil value - an outcome like any other
+       THEN SetW(w, [W(w) EXCEPT !.st = "record", !.att = @ + 1,
+                                 !.res = OkRes(IF o.out = "ok" THEN ValTok(W(w).item, W(w).att + 1) ELSE 0)])
        ELSE IF o.out = "eres"
        THEN SetW(w, [W(w) EXCEPT !.st = "record", !.att = @ + 1, !.res = SoftErr({ErrTok(W(w).item, W(w).att + 1)})])
        ELSE SetW(w, [W(w) EXCEPT !.st = "loop", !.att = @ + 1, !.last = ErrTok(W(w).item, W(w).att + 1)])
@@ -330,6 +340,7 @@ Next ==
   \/ \E w \in Workers : InternalW(w)
   \/ \E o \in {"ok"} \cup (IF cfg.preperr THEN {"err"} ELSE {}) : Prep(o)
   \/ \E o \in PostOuts : Post(o)
+  \/ LookAgain
   \/ CbEnabled /\ \E w \in Workers : \E o \in ExecOuts : PExecOut(w, o)
   \/ \E w \in Workers : \E o \in FbOuts : PFb(w, o)      \* the fallback follows the last attempt at once (not gated)
 
